@@ -103,7 +103,8 @@ func (g *generator) nextTag() string {
 	return t
 }
 
-var codeLists = []string{"IMM01", "IMM", "ALL", "CTOR01", "CTOR", "CTOR03", "TONL01", "TONL", "PKGO", "PKGO01", "imm02", "Ctor02, IMM03", "IMM04 because reasons", "XYZ", "TONL02, TONL03", "PKGO02,PKGO03", "IMPL", "all"}
+var codeLists = []string{"IMM01", "IMM", "ALL", "CTOR01", "CTOR", "CTOR03", "TONL01", "TONL", "PKGO", "PKGO01", "imm02", "Ctor02, IMM03", "IMM04 because reasons", "XYZ", "TONL02, TONL03", "PKGO02,PKGO03", "IMPL", "all",
+	"IMM01 legacy code, all callers audited", "CTOR01 see the ticket, IMM tracked elsewhere", "TONL02 (temporary, ALL of this goes away)", "PKGO02 reviewed,approved, imm01 too", "IMM03, CTOR01 reason, TONL"}
 
 var hotCodes = []string{"PKGO01", "TONL01", "PKGO", "TONL", "ALL", "IMM01", "CTOR01", "IMM", "CTOR", "pkgo01", "Tonl01, PKGO01"}
 
@@ -616,6 +617,10 @@ func (g *generator) body(p *gpkg, vars []scopeVar, extra []string, n int) []stri
 			stmts = append(stmts, "", "// plain comment")
 		}
 	}
+	if g.o.Ignores && r.Chance(1, 5) {
+		// nothing follows the comment inside the body: it covers nothing (in particular not the next declaration)
+		stmts = append(stmts, "\x00LAST")
+	}
 	if g.o.Ignores {
 		// statements that come with an @ignore of exactly one code (a reported call nested in a suppressed one, and the
 		// other way round): half of them in every body that can see them
@@ -632,6 +637,13 @@ func (g *generator) body(p *gpkg, vars []scopeVar, extra []string, n int) []stri
 			} else {
 				stmts = append(stmts, st+" "+tag+" // @ignore "+code)
 			}
+		}
+	}
+	// the marker of the trailing comment moves to the very end
+	for k, st := range stmts {
+		if st == "\x00LAST" {
+			stmts = append(append(stmts[:k:k], stmts[k+1:]...), g.ignoreComment())
+			break
 		}
 	}
 	return stmts
@@ -821,9 +833,13 @@ func (g *generator) renderPkg(m *Module, p *gpkg, decls []*gpkg) {
 		for _, cn := range t.ctors {
 			var b []string
 			if t.kind == 0 {
-				b = []string{"p := &" + t.name + "{X: 1} " + g.nextTag(), "p.X = 2 " + g.nextTag(), "p.Items = append(p.Items, 1) " + g.nextTag(), "var z " + t.name + " " + g.nextTag(), "_ = z", "return p"}
+				b = []string{"p := &" + t.name + "{X: 1} " + g.nextTag(), "p.X = 2 " + g.nextTag(), "p.Items = append(p.Items, 1) " + g.nextTag(), "var z " + t.name + " " + g.nextTag(), "_ = z",
+					// function literals inside the constructor are part of it
+					"func() { p.X = 3 " + g.nextTag() + " }()", "defer func() { var y " + t.name + " " + g.nextTag() + "; y.X++ " + g.nextTag() + " }()",
+					"init := func() *" + t.name + " { return new(" + t.name + ") " + g.nextTag() + " }", "_ = init", "go func() { _ = []" + t.name + "{{X: 1}} " + g.nextTag() + " }()",
+					"return p"}
 			} else {
-				b = []string{"p := new(" + t.name + ") " + g.nextTag(), "return p"}
+				b = []string{"p := new(" + t.name + ") " + g.nextTag(), "func() { var y " + t.name + " " + g.nextTag() + "; _ = y }()", "return p"}
 			}
 			// a constructor of t is not a constructor of its neighbours: writes to / instances of another type of the
 			// package inside it are judged for that type (before or after the function's own writes)
@@ -922,6 +938,28 @@ func (g *generator) renderPkg(m *Module, p *gpkg, decls []*gpkg) {
 		// re-exported under another name: users can instantiate the type without importing its package
 		add("type Rec" + t.name + " = " + ref + " " + g.nextTag())
 		add("type Batch" + t.name + " = []" + ref + " " + g.nextTag())
+	}
+	// a parameter / local named like an imported package's qualifier shadows the package inside the function
+	for k, im := range p.imports {
+		if im.thin || len(im.types) == 0 || im.types[0].kind != 0 || p.alias[im] == "" {
+			continue
+		}
+		a, t := p.alias[im], im.types[0]
+		b := []string{a + ".X = 1 " + g.nextTag(), a + ".Mutate() " + g.nextTag(), "_ = " + a + ".Get() " + g.nextTag()}
+		if t.tmeth {
+			b = append(b, a+".ResetForTest() "+g.nextTag())
+		}
+		if t.pmeth {
+			b = append(b, a+".Internal() "+g.nextTag())
+		}
+		add(fmt.Sprintf("func ShadowQualifier%d(%s *%s.%s) {\n", k, a, a, t.name) + indent(b) + "}")
+		if len(im.funcs) > 0 {
+			// an unannotated local method that shares its name with a function of the shadowed package
+			f := im.funcs[0]
+			add(fmt.Sprintf("type shadowS%d struct{}\n\nfunc (shadowS%d) %s() int { return 0 }", k, k, f.name))
+			add(fmt.Sprintf("func UseShadowS%d() {\n", k) + indent([]string{"_ = " + a + "." + f.name + " " + g.nextTag(), a + " := shadowS" + fmt.Sprint(k) + "{}", "_ = " + a + "." + f.name + "() " + g.nextTag()}) + "}")
+		}
+		break
 	}
 	// extra statements: calls of annotated functions / methods visible from p
 	extraFor := func() []string {
@@ -1282,6 +1320,8 @@ func (g *generator) renderPkg(m *Module, p *gpkg, decls []*gpkg) {
 		add("// BodyNote is documented; the lines inside it are ordinary comments.\nfunc BodyNote() int {\n\t// @testonly\n\tx := 1\n\t// @packageonly nobody\n\treturn x\n}\n// @testonly")
 		add("// Note is a documented method.\nfunc (pl *Free) Note() {\n\t// @testonly\n\t// @packageonly nobody\n}")
 		add("// SigNote is documented.\nfunc SigNote( // @testonly\n\ta int, // @packageonly nobody\n) int { // @testonly\n\treturn a\n}")
+		add("// Gauge is a method that shares its name with a type; its doc carries type-level keywords.\n// @immutable\n// @constructor NewNothing\nfunc (pl *Free) Gauge() Gauge { return Gauge{} }")
+		add("// FieldDocs, a function named like a type.\n// @immutable\n// @constructor NewFieldDocs\nfunc (pl Free) FieldDocs() {}")
 		add("func UseBodyNote(f *Free) {\n" + indent([]string{"_ = BodyNote() " + g.nextTag(), "f.Note() " + g.nextTag(), "_ = SigNote(1) " + g.nextTag()}) + "}")
 		add("/*\nBlockDoc is documented in a block comment.\n@immutable\n@constructor NewBlockDoc\n*/\ntype BlockDoc struct{ X int }")
 		add("/*\n@testonly\n@packageonly nobody\n*/\nfunc BlockFn() int { return 3 }")
@@ -1337,10 +1377,18 @@ func (g *generator) renderPkg(m *Module, p *gpkg, decls []*gpkg) {
 	dir := strings.TrimPrefix(p.path, "exp/")
 	_ = decls
 	unsafeFirst := g.xr.Chance(1, 3) // drawn once per package, whatever the files turn out to import
+	rawImports := g.xr.Chance(1, 4)  // import paths written as raw string literals (legal; gofmt rewrites them)
 	for fi, decls := range files {
 		var sb strings.Builder
 		if g.o.Ignores && r.Chance(1, 12) {
 			sb.WriteString("// @ignore " + rng.Pick(r, []string{"IMM03", "CTOR02", "TONL", "PKGO02", "TONL01", "PKGO01", "IMM01", "CTOR01", "TONL03"}) + "\n")
+			if g.o.BlankLines && g.lr.Chance(2, 3) {
+				// a header comment: a blank line (and the real package comment) between it and the package clause
+				sb.WriteString("\n")
+				if g.lr.Bool() {
+					sb.WriteString("// Package " + p.name + " is generated.\n")
+				}
+			}
 		}
 		sb.WriteString("package " + p.name + "\n\n")
 		body := strings.Join(decls, "\n\n") + "\n"
@@ -1361,6 +1409,11 @@ func (g *generator) renderPkg(m *Module, p *gpkg, decls []*gpkg) {
 				if fi == 0 && unsafeFirst {
 					// an import that carries no facts, listed ahead of the annotated packages
 					used = append([]string{"\t_ \"unsafe\""}, used...)
+				}
+				if rawImports {
+					for k := range used {
+						used[k] = strings.ReplaceAll(used[k], "\"", "`")
+					}
 				}
 				sb.WriteString("import (\n" + strings.Join(used, "\n") + "\n)\n\n")
 			}
@@ -1516,6 +1569,9 @@ func (g *generator) renderPkg(m *Module, p *gpkg, decls []*gpkg) {
 		// external test package
 		self := p.path
 		m.Files[dir+"/export_test.go"] = "package " + p.name + "\n\n// DeclInTest is declared in a test file of the package.\n// @immutable\n// @constructor NewDeclInTest\ntype DeclInTest struct{ X int }\n\nfunc NewDeclInTest() *DeclInTest { return &DeclInTest{} }\n"
+		// a test file whose base name has a dot before _test.go
+		m.Files[dir+"/store.v2_test.go"] = "package " + p.name + "\n\n// DottedT is declared in a test file.\n// @immutable\n// @constructor NewDottedT\ntype DottedT struct{ X int }\n\n" +
+			"func touchDotted() {\n\tvar d DottedT " + g.nextTag() + "\n\td.X = 1 " + g.nextTag() + "\n\td.X++ " + g.nextTag() + "\n\t_ = DeclInTest{} " + g.nextTag() + "\n}\n"
 		m.Files[dir+"/ext_test.go"] = "package " + p.name + "_test\n\nimport (\n\t\"testing\"\n\n\tself \"" + self + "\"\n)\n\nfunc TestNothing(t *testing.T) {\n\td := self.NewDeclInTest() " + g.nextTag() + "\n\td.X = 1 " + g.nextTag() + "\n\t_ = self.DeclInTest{} " + g.nextTag() + "\n}\n" +
 			"\n// ExtOnly is declared in the external test package.\n// @immutable\n// @constructor NewExtOnly\ntype ExtOnly struct{ X int }\n\nfunc NewExtOnly() *ExtOnly { return &ExtOnly{X: 1} }\n\n" +
 			"func touchExtOnly() {\n\te := &ExtOnly{} " + g.nextTag() + "\n\te.X = 2 " + g.nextTag() + "\n\te.X++ " + g.nextTag() + "\n\tvar z ExtOnly " + g.nextTag() + "\n\t_ = z\n}\n"
